@@ -41,6 +41,32 @@ pub fn check_history(h: &Hist, twin: bool) -> Result<(bool, Vec<&'static str>, V
         let e = &ev.expect;
         let seg = &ev.seg;
         let around = Some((seg.start.saturating_sub(2), (seg.end + 2).min(h.log.len())));
+        // model-free part (also judged when the reference walk could not follow the check): whatever outcome the
+        // delivered result names for a known app, the matching event for that app is on the wire within the check
+        if let Some(ResultView::Ok(actions)) = seg.result_at.and_then(|r| if let Op::Took(EventView::Result(res)) = &h.log[r] { Some(res.clone()) } else { None }) {
+            let reqs = seg_requests(h, seg);
+            let on_wire = |app: &str, f: &dyn Fn(&EventJson) -> bool| reqs.iter().any(|(_, v, _, _)| v.kind == ReqKind::Events && v.apps.iter().any(|a| a.id == app && a.events.iter().any(|e| f(e))));
+            for a in &actions {
+                if !ev.apps.iter().any(|k| k.id == a.id) {
+                    continue; // unknown to the app set: not reported
+                }
+                // only apps the response offered an update to have an outcome of their own
+                let offered = e.doc.as_ref().map(|d| d.apps.iter().any(|x| x.id == a.id && matches!(&x.uc, Some(u) if u.status == "ok"))).unwrap_or(false);
+                if !offered {
+                    continue;
+                }
+                let (what, ok) = match a.action {
+                    ActionView::DeferredByPolicy => ("deferred (event result 9)", on_wire(&a.id, &|e| e.event_type == 3 && e.event_result == 9)),
+                    ActionView::DeniedByPolicy => ("denied by policy (error code 3)", on_wire(&a.id, &|e| e.event_type == 3 && e.event_result == 0 && e.errorcode == Some(3))),
+                    ActionView::Updated => ("update complete (type 3, result 1)", on_wire(&a.id, &|e| e.event_type == 3 && e.event_result == 1)),
+                    ActionView::InstallError => ("installation error (type 3, result 0)", on_wire(&a.id, &|e| e.event_type == 3 && e.event_result == 0)),
+                    _ => continue,
+                };
+                if !ok {
+                    return Err(failure("outcome-not-reported", format!("the result says app {:?} was {:?}, but no '{what}' event for it was put on the wire in this check", a.id, a.action), h, around));
+                }
+            }
+        }
         if e.poll_ambiguous || !ev.poll_known || !e.complete {
             continue;
         }
